@@ -101,7 +101,7 @@ ResClauses(c) ==
          \cup bad("C20.mri_system", IsZero(Pexp(t)) \/ Pexp(t).n \/ RClose(N(c.obs.mri_sys[t]), <<Sub(Pout(t), Pexp(t)), Pexp(t)>>, Sci(1, -12), Tol))
          \cup UNION {bad("C20.pump_power", RClose(N(c.obs.power[t][PP[k].name]), power(t, PP[k]), Sci(1, -9), Tol))
                      \cup bad("C20.pump_energy", RClose(N(c.obs.energy[t][PP[k].name]), RMul(power(t, PP[k]), RInt(c.Rep)), Sci(1, -9), Tol))
-                     \cup bad("C20.pump_cost", RClose(N(c.obs.cost[t][PP[k].name]), RMul(RMul(power(t, PP[k]), RInt(c.Rep)), RNum(c.price)), Sci(1, -12), Tol))
+                     \cup bad("C20.pump_cost", RClose(N(c.obs.cost[t][PP[k].name]), RMul(RMul(power(t, PP[k]), RInt(c.Rep)), RNum(PP[k].price)), Sci(1, -12), Tol))   \* the pump's own price, else the global one
                      : k \in DOMAIN PP}
          \cup UNION {LET tk == c.tanks[k] IN
                      bad("C20.tank_capacity",   \* cylinder: level / max level
